@@ -153,6 +153,8 @@ def const_to_val(obj):
     if obj is UNDEF: return Val.Undef
     if isinstance(obj, bool): return Val.B(BoolVal(obj))
     if isinstance(obj, int): return Val.I(IntVal(obj))
+    if isinstance(obj, float) and obj == float('inf'):
+        return Val.R(RealVal(10 ** 300))          # encoding: +inf is the real number 10^300 (only compared, never computed with)
     if isinstance(obj, float):
         if obj != obj or obj in (float('inf'), float('-inf')):
             raise Unsupported(f'non-finite float constant {obj}')
